@@ -45,12 +45,12 @@ LEVEL_TEXT = ("Theorems (Coq, all argument values, sizes and table lengths): for
               "correspondence run: every generated request is executed in a child process of the real library, once in the plain build and once under "
               "AddressSanitizer + UBSan + libstdc++ assertions, and (returned / exited with diagnostic / crashed / sanitizer report) is compared with the model's Ok/Exit/OOB "
               "and with an independent statement of each domain (S4); for request sequences on one Interpolation object the indices returned by Locate are compared with the model and "
-              "with the interval that contains the argument, and every answer with the answer of an untouched copy of the object (the search state jLast / correlated_calls is not in the model). Not covered by theorems: Ridder's inner 'does not reach the root' exit (C02), the 'Matrix is singular' "
+              "with the interval that contains the argument, and every answer with the answer of an untouched copy of the object. The search state of Locate IS in the model since the seventh pass (C10_Model2.v: jLast, correlated_calls, Hunt() line by line with its int / unsigned conversions; `locate_trace` cases compare the returned index, jLast and correlated_calls after every request with the library, whose private members the harness reads): in every admissible state (0 <= jLast <= N-2; the constructors' state is one) Hunt / Locate read only x_values[0..N-1], end within their fuel, exit exactly when the stateless Locate does and leave jLast = the returned interval index, for every number type incl. NaN entries and every sequence length (C10_hunt_stays_in_table, C10_locate_with_search_state, C10_locate_sequence_with_search_state, N < 2^31); over every strictly ordered number type and strictly increasing table the search state never changes an answer: Locate in any admissible state returns the index of the stateless Locate (C10_search_state_never_changes_an_answer, C10_locate_sequence_same_indices - no longer quoted from C09). Not covered by theorems: Ridder's inner 'does not reach the root' exit (C02), the 'Matrix is singular' "
               "exit inside Gauss-Jordan (C05; cannot fire in exact arithmetic when det != 0), Inv_Erf's nested bracket for |p|<1 (holds in doubles because erf(+-10) = +-1), "
               "which of the documented integrators a documented name is dispatched to (only acceptance / refusal of the name is modelled), NaN parameters (pass every '<' guard; only Find_Root and Locate test for NaN).")
 LEVEL_NOTE = ("Coq 8.16.1 kernel; guard model hand-written from the current sources, containers abstracted to their sizes where their contents do not matter; "
-              "theorems over Z/nat and the abstract order are axiom-free, theorems over R use the standard library's real-number axioms; Locate is modelled with its bisection branch "
-              "(the hunt branch returns the same index: C09; the run checks it on every request sequence against an untouched copy of the object); Linear_Space is modelled inside Save_Function; std::sort/unique/is_sorted/upper_bound modelled by their specifications; process exit status, diagnostics and "
+              "theorems over Z/nat and the abstract order are axiom-free, theorems over R use the standard library's real-number axioms; Locate is modelled twice: stateless (bisection branch, C10_Model.v - the guard theorems refer to it) and with its search state and Hunt() (C10_Model2.v); C10_search_state_never_changes_an_answer proves that both return the same index "
+              "(the run also checks it on every request sequence against an untouched copy of the object); Linear_Space is modelled inside Save_Function; std::sort/unique/is_sorted/upper_bound modelled by their specifications; process exit status, diagnostics and "
               "sanitizer reports are observed, not proved; for `nested` cases the model assumes that every quadrature method evaluates its integrand at least three times on a non-empty interval (boost / the library's own rules do) and Find_Root twice")
 TOL = (0.0, 0.0)
 TRUSTED = ["fork/exit-status/diagnostic capture of harness/common.hpp; AddressSanitizer, UBSan and _GLIBCXX_ASSERTIONS as detectors of out-of-bounds accesses",
@@ -508,6 +508,11 @@ def meaningful(line):
         if any(math.isnan(v) for r in rows for v in r): return None
         X = sorted(set(r[0] for r in rows)); Y = sorted(set(r[1] for r in rows))
         return len(X) >= 2 and len(Y) >= 2 and [(r[0], r[1]) for r in rows] == [(x, y) for x in X for y in Y]
+    if op == "locate_trace":
+        xs, pos = rd_list(t, 1, tokf); v = valid_table(xs)
+        if not v: return v
+        args, _ = rd_list(t, pos, tokf)
+        return worst([in_domain(xs, a) for a in args])
     if op == "closest":
         l, pos = rd_list(t, 1, tokf)
         if nan(*l): return None
@@ -902,6 +907,7 @@ def generate(rng, tier):
     gen_long_sessions(rng, big, add)
     gen_save_edges(rng, big, add)
     gen_coinciding(rng, big, add, grids)
+    gen_locate_traces(rng, big, add)
     gen_process_histories(rng, big, add, cs)
     return cs
 
@@ -1374,6 +1380,63 @@ def gen_long_sessions(rng, big, add):
                     add(f"{h} {len(pts)} " + " ".join(f"{hx(x)} {hx(y)}" for x, y in pts), "long-table-history", nt=True)
 
 
+def gen_locate_traces(rng, big, add):
+    """Locate with its search state (jLast, correlated_calls): walks over tables of every size class that drive every branch of Hunt() - a step of 0..9
+    intervals upwards makes the next request a hunt; from there: the same interval, a tabulated abscissa (+-1 ulp), a hunt upwards / downwards over 1, 2, 3,
+    4, 7, 8, 9, ... intervals up to either end of the table (the doubling stride runs off the range), the first / last abscissa, the tolerance bands,
+    and sometimes a refused request at the end"""
+    sizes = [2, 3, 4, 5, 8, 9, 12, 17, 33, 64, 65, 100] + ([129, 257, 300, 1025, 2049] if big else [rng.choice([129, 257, 300, 1025])])
+    for n in sizes:
+        for rep in range((6 if n <= 100 else 3) if big else (3 if n <= 17 else 2)):
+            if rng.random() < 0.4: g = [float(k) for k in range(n)]
+            else:
+                g = [rng.choice([-7.0, 0.0, 3.5, 1e3])]
+                for _ in range(n - 1): g.append(g[-1] + rng.choice([0.25, 0.5, 1.0, 1.0, 3.0, 1e-3]))
+            def at(j, mode=None):
+                j = min(max(j, 0), n - 2); mode = mode or rng.choice(["mid", "mid", "knot", "knot+", "next-", "next", "q"])
+                if mode == "knot": return g[j]
+                if mode == "knot+": return na(g[j], math.inf)
+                if mode == "next-": return na(g[j + 1], -math.inf)
+                if mode == "next": return g[j + 1]
+                return g[j] + (0.5 if mode == "mid" else rng.choice([0.001, 0.25, 0.75, 0.999])) * (g[j + 1] - g[j])
+            j = rng.randrange(n - 1); xs_ = [at(j)]
+            for _ in range(rng.choice([4, 8, 14, 25]) if big else rng.choice([4, 8, 14])):
+                k = rng.random()
+                if k < 0.30: j = min(n - 2, j + rng.randrange(0, 10))                       # correlated step: the next request hunts
+                elif k < 0.45: j = max(0, j - rng.choice([1, 2, 3, 4, 5, 7, 8, 9, 15, 16, 17, 31, 33, 100, 2000]))
+                elif k < 0.60: j = min(n - 2, j + rng.choice([1, 2, 3, 4, 5, 7, 8, 9, 10, 11, 15, 16, 17, 31, 33, 100, 2000]))
+                elif k < 0.68: j = rng.choice([0, n - 2])
+                elif k < 0.76: j = rng.randrange(n - 1)
+                elif k < 0.82: xs_.append(rng.choice([g[0], g[-1]])); j = 0 if xs_[-1] == g[0] else n - 2; continue
+                elif k < 0.88:
+                    side = rng.random() < 0.5; f = rng.choice([1e-9, 0.004, 0.5, 0.99])
+                    xs_.append(g[-1] + f * 1e-2 * (g[-1] - g[-2]) if side else g[0] - f * 1e-2 * (g[1] - g[0])); j = n - 2 if side else 0; continue
+                xs_.append(at(j))
+            t = rng.random()
+            if t < 0.15: xs_.append(rng.choice([g[-1] + 0.5 * (g[-1] - g[-2]), g[0] - 2.0 * (g[1] - g[0]), math.nan, math.inf]))
+            add(f"locate_trace {flist(g)} {flist(xs_)}", "locate-search-state", nt=True)
+    # hand-made: every stride of the hunt from both ends of a 40-point table, at knots and between them
+    g = [float(k) for k in range(40)]
+    for d in (1, 2, 3, 4, 5, 7, 8, 9, 15, 16, 17, 31, 32, 38):
+        for f in (0.0, 0.5):
+            add(f"locate_trace {flist(g)} {flist([0.5, 1.5, 1.5 + d - f])}", "locate-search-state", nt=True)                 # hunt up over d intervals
+            add(f"locate_trace {flist(g)} {flist([37.5, 38.5, 38.5 - d + f])}", "locate-search-state", nt=True)              # hunt down over d intervals
+    for xs_ in ([0.0, 0.0, 39.0, 39.0, 0.0], [39.0, 39.0, 0.0], [0.5, 0.5, 39.0], [38.5, 38.5, 0.0], [5.0, 5.0, 5.0, 4.0, 6.0], [5.0, 6.0, 7.0, 6.0]):
+        add(f"locate_trace {flist(g)} {flist(xs_)}", "locate-search-state", nt=True)
+    # exhaustive: every pair (interval in which the search state was left, interval of the next request) of a table, so every stride of both hunting
+    # loops, both range cuts (jd - dj = -1, -2, ...; ju + dj = N, N + 1, ...) and every width of the final bisection occur
+    for n in ([34] if not big else [5, 34, 66, 130]):
+        g = [float(k) for k in range(n)] if n != 5 else [-1.0, 0.0, 0.5, 4.0, 4.25]
+        for j in range(n - 1):
+            for mode in (("mid",) if not big else ("mid", "knot")):
+                pos = (lambda i: 0.5 * (g[i] + g[i + 1])) if mode == "mid" else (lambda i: g[i])
+                xs_ = []
+                for t_ in range(n - 1): xs_ += [pos(j), pos(j), pos(t_)]
+                add(f"locate_trace {flist(g)} {flist(xs_)}", "locate-search-state", "locate-every-pair", nt=True)
+    for bad in ([], [1.0], [1.0, 1.0], [2.0, 1.0]): add(f"locate_trace {flist(bad)} {flist([1.0])}", "locate-search-state", nt=True)
+    add(f"locate_trace {flist([0.0, 1.0])} {flist([0.0, 1.0, 0.5, 1.0, 0.0])}", "locate-search-state", nt=True)
+
+
 # ------------------------------------------------------------------ comparison, S4, non-triviality
 def compare(c, io, mo, tol):
     """model and implementation correspond when the outcome kinds agree; a model OOB (undefined behaviour predicted) corresponds to a
@@ -1406,6 +1469,18 @@ def predicates(c, io):
                 out.append((op + ":result-shape" + region, f"after this history the matrix is {shape[0]}x{shape[1]}, the object says {R}x{C}: the next conformable request will be refused, the next non-conformable one accepted"))
             if bad != 0:
                 out.append((op + ":row-length-invariant", f"{bad} of the {R} rows of the object do not hold Columns() = {C} entries: every shape guard passes for conformable operands and the element loop reads or writes out of bounds"))
+        elif op == "locate_trace":
+            xs, pos = rd_list(t, 1, tokf); args, _ = rd_list(t, pos, tokf)
+            try: v = [int(x) for x in got]; ok = len(v) == 1 + 3 * len(args) and v[0] == len(args)
+            except ValueError: ok = False
+            if not ok: return [(op + ":output", f"unexpected output {io}")]
+            for k, x in enumerate(args):
+                j, jl = v[1 + 3 * k], v[2 + 3 * k]
+                if not interval_ok(xs, x, j):
+                    where = "beyond the last interval: every coefficient read with it is out of bounds" if j > len(xs) - 2 else "an interval that does not contain the argument"
+                    out.append((op + ":locate-index", f"Locate request {k + 1} of the sequence, x = {x!r}: returned index {j} of a table with intervals 0..{len(xs) - 2} ({where})")); break
+                if jl != j:
+                    out.append((op + ":search-state", f"Locate request {k + 1} of the sequence returned {j} but left jLast = {jl}: the next hunt starts from an index that was never validated")); break
         elif op == "vec_hist":
             _, d = vec_ref(t)
             if len(got) != 1 or int(got[0]) != d: out.append((op + ":result-size", f"after this history the vector has {d} components, the object says {io}"))
